@@ -45,6 +45,7 @@ def gen(seed: int, tier: str, idx=None):
     obs = [{"kind": rng.choice(OBS_KINDS), "scope": rng.choice(["cell", "table", "table"]), "s": rng.randrange(4), "t": rng.randrange(4),
             "r": rng.randrange(60), "c": rng.randrange(20)} for _ in range(n)]
     common = {"observers": obs, "cycles": rng.choice([1, 2, 2, 3]), "package": rng.random() < 0.25, "observe_each_cycle": rng.random() < 0.5,
+              "save_twice": rng.choice([False, False, True, "other_form"]),
               "deep_cap": None if tier == "thorough" else 400}
     in_run = (idx is not None and idx % 10 in (3, 6, 9)) or (idx is None and rng0.random() < 0.3)
     if not in_run:
